@@ -238,6 +238,7 @@ def struct_check(rep, tier, seed, scratch):
     run_mc(rep, 'C10', scratch, 'MC_C10_struct', mc_cfg('C10', **kw))
     rng = random.Random(seed + 10)
     scs = [er.director_scenario(rng) for _ in range(400 if tier == 'quick' else 4000)]
+    scs += er.recreate_scenarios()
     validate(rep, 'C10', scs, scratch, label='struct', struct_owner='C10')
 
 
